@@ -88,3 +88,20 @@ package bill
 //@   ensures [sum] old(l.Item) != nil && old(l.Item.Price) != nil ==> err == nil && l.Sum != nil && *l.Sum == old(lineSumS(l, tax.upS(*l.Item.Price, currency.subunits(cur)), currency.subunits(cur), rr))
 //@   ensures [price] old(l.Item) != nil && old(l.Item.Price) != nil ==> l.Item.Price != nil && *l.Item.Price == old(tax.upS(*l.Item.Price, currency.subunits(cur)))
 //@   ensures [noprice] old(l.Item) != nil && old(l.Item.Price) == nil ==> err == nil && l.Sum == nil && l.Total == nil
+//
+// ---- C04: presentation rounding of the totals writes only calculated fields (never the
+// supplied rounding amount) and brings each to the currency's decimals
+//@ pred ptrsApart(t *Totals) bool = (t.Rounding != nil ==> t.Rounding != t.Discount && t.Rounding != t.Charge && t.Rounding != t.TaxIncluded && t.Rounding != t.Advances && t.Rounding != t.Due)
+//@ func (t *Totals) round(zero) ()
+//@   requires t != nil && ptrsApart(t)
+//@   modifies Totals.Sum, Totals.Total, Totals.Tax, Totals.TotalWithTax, Totals.Payable, num.Amount.value, num.Amount.exp
+//@   footprint t, t.Discount, t.Charge, t.TaxIncluded, t.Advances, t.Due
+//@   ensures [values] t.Sum == old(num.rescaleS(t.Sum, zero.exp)) && t.Total == old(num.rescaleS(t.Total, zero.exp)) && t.Tax == old(num.rescaleS(t.Tax, zero.exp)) && t.TotalWithTax == old(num.rescaleS(t.TotalWithTax, zero.exp)) && t.Payable == old(num.rescaleS(t.Payable, zero.exp))
+//@   ensures [rounding] t.Rounding == old(t.Rounding) && (t.Rounding != nil ==> *t.Rounding == old(*t.Rounding))
+//
+//@ func (t *Totals) reset(zero) ()
+//@   requires t != nil
+//@   modifies Totals.Sum, Totals.Discount, Totals.Charge, Totals.TaxIncluded, Totals.Total, Totals.Taxes, Totals.Tax, Totals.TotalWithTax, Totals.Payable, Totals.Advances, Totals.Due
+//@   footprint t
+//@   ensures t.Sum == zero && t.Total == zero && t.Tax == zero && t.TotalWithTax == zero && t.Payable == zero && t.Discount == nil && t.Charge == nil && t.TaxIncluded == nil && t.Taxes == nil && t.Advances == nil && t.Due == nil
+//@   ensures [rounding] t.Rounding == old(t.Rounding)
